@@ -36,7 +36,12 @@ pub fn gen_controls(rng: &mut Rng) -> Vec<ReqHeader> {
         let wide = rng.chance(1, 3);
         let mut data = Vec::new();
         for _ in 0..count {
-            let index = rng.below(4) as u16;
+            // (with 16-bit prefixes now and then an index that differs from a small one in its high octet only)
+            let index = if wide && rng.chance(1, 4) {
+                0x100 * rng.range(1, 3) as u16 + rng.below(4) as u16
+            } else {
+                rng.below(4) as u16
+            };
             if wide {
                 data.extend_from_slice(&index.to_le_bytes());
             } else {
@@ -360,11 +365,14 @@ struct Rx {
     is_select_from_master: bool,
     /// the SELECT was answered with an all-SUCCESS echo
     succeeded: bool,
+    /// what the control handler was asked to select for it: (group, variation, index, contents)
+    selected: Vec<(u8, u8, u16, String)>,
 }
 
 pub struct SboOracle {
     hist: Vec<Rx>,
     select_timeout: u64,
+    rx_size: usize,
     master: u16,
     own: u16,
     self_addr: bool,
@@ -378,6 +386,7 @@ impl SboOracle {
         Self {
             hist: Vec::new(),
             select_timeout: case.cfg.select_timeout_ms,
+            rx_size: case.cfg.rx,
             master: case.cfg.master_addr,
             own: case.cfg.outstation_addr,
             self_addr: case.cfg.self_address,
@@ -407,6 +416,42 @@ fn count_objects(body: &[u8]) -> Option<usize> {
         .map(|(_, objs)| objs.len())
 }
 
+impl SboOracle {
+    /// the objects handed to the control handler are the requested ones, in order, with the contents that were selected
+    fn operated_objects_differ(
+        &mut self,
+        step: &Step,
+        operated: &[(u8, u8, u16, String)],
+        requested: Option<&Vec<(u8, u8, u16)>>,
+        sel: Option<&Rx>,
+    ) -> Option<Violation> {
+        if let Some(req) = requested {
+            let got: Vec<(u8, u8, u16)> = operated.iter().map(|o| (o.0, o.1, o.2)).collect();
+            self.bump("probe.operated_objects_compared_with_request");
+            if &got != req {
+                return Some(Violation::new(
+                    "C04/operated-objects-differ-from-request",
+                    "identity",
+                    format!("step {}: the OPERATE names (group, variation, index) {:?} but the handler was asked to operate {:?}", step.op_index, req, got),
+                ));
+            }
+        }
+        if let Some(sel) = sel {
+            if sel.selected.len() == operated.len() && !operated.is_empty() {
+                self.bump("probe.operated_objects_compared_with_selection");
+                if sel.selected != operated {
+                    return Some(Violation::new(
+                        "C04/operated-objects-differ-from-request",
+                        "contents",
+                        format!("step {}: selected {:?} but operated {:?} although the object octets are identical", step.op_index, sel.selected, operated),
+                    ));
+                }
+            }
+        }
+        None
+    }
+}
+
 impl Oracle for SboOracle {
     fn step(&mut self, _world: &World, step: &Step) -> Option<Violation> {
         if step.connected || step.disconnected {
@@ -419,6 +464,19 @@ impl Oracle for SboOracle {
             _ => {
                 if let Op::Sleep(_) | Op::SleepRel { .. } = step.op {
                     self.fp = mix(&[self.fp, 901]);
+                }
+                // nothing was delivered in this step: nothing may be actuated in it (a deferred actuation would show up here)
+                let n = step
+                    .callbacks
+                    .iter()
+                    .filter(|(_, cb)| matches!(cb, Cb::Operate { op: 0, .. }))
+                    .count();
+                if n > 0 {
+                    return Some(Violation::new(
+                        "C04/sbo-actuation-without-operate",
+                        "no-fragment-delivered",
+                        format!("step {}: {} select-before-operate actuation(s) in a step in which no fragment reached the outstation ({:?})", step.op_index, n, step.op),
+                    ));
                 }
                 return None;
             }
@@ -435,6 +493,7 @@ impl Oracle for SboOracle {
                     t_ms: sent.t_ms,
                     is_select_from_master: false,
                     succeeded: false,
+                    selected: Vec::new(),
                 });
             }
             return None;
@@ -456,6 +515,7 @@ impl Oracle for SboOracle {
             t_ms: sent.t_ms,
             is_select_from_master: false,
             succeeded: false,
+                    selected: Vec::new(),
         };
 
         let operate_callbacks: Vec<u8> = step
@@ -466,6 +526,27 @@ impl Oracle for SboOracle {
                 _ => None,
             })
             .collect();
+
+        // which objects were operated, with which contents (as the handler saw them)
+        let operated: Vec<(u8, u8, u16, String)> = step
+            .callbacks
+            .iter()
+            .filter_map(|(_, cb)| match cb {
+                Cb::Operate { op: 0, group, var, index, repr, .. } => Some((*group, *var, *index, repr.clone())),
+                _ => None,
+            })
+            .collect();
+        let selected_now: Vec<(u8, u8, u16, String)> = step
+            .callbacks
+            .iter()
+            .filter_map(|(_, cb)| match cb {
+                Cb::Select { group, var, index, repr, .. } => Some((*group, *var, *index, repr.clone())),
+                _ => None,
+            })
+            .collect();
+        let requested: Option<Vec<(u8, u8, u16)>> = refapp::decode_objects(&sent.bytes[2..], true)
+            .ok()
+            .map(|(_, objs)| objs.iter().map(|o| (o.group, o.var, o.index.unwrap_or(0) as u16)).collect());
 
         let mut verdict_class = 0u64;
         let mut violation = None;
@@ -482,6 +563,15 @@ impl Oracle for SboOracle {
                     && !iin2_err;
             }
             verdict_class = 10 + entry.succeeded as u64;
+            entry.selected = selected_now.clone();
+            // a SELECT arms, it never actuates
+            if !operate_callbacks.is_empty() {
+                violation = Some(Violation::new(
+                    "C04/sbo-actuation-without-operate",
+                    "func=3 from-master",
+                    format!("step {}: the SELECT itself caused {} select-before-operate actuation(s)", step.op_index, operate_callbacks.len()),
+                ));
+            }
         } else if func == refapp::FUNC_OPERATE {
             // evaluate the property's predicate on our own record of the history
             let n = self.hist.len();
@@ -511,6 +601,9 @@ impl Oracle for SboOracle {
                 }
             }
             // an identical fragment was already received in this session: its echo may come from memory (C05)
+            // (which earlier request counts as "processed last" depends on states this oracle does not follow - deferred READs,
+            // fragments turned down before they were requests - so any identical earlier fragment of the session is accepted
+            // as the original; C05 judges the echo itself)
             let is_retransmission = self
                 .hist
                 .iter()
@@ -588,7 +681,23 @@ impl Oracle for SboOracle {
                             "",
                             format!("step {}: OPERATE that must be rejected was answered with statuses {:?}", step.op_index, st),
                         ));
+                    } else if let (true, Some(req)) = (from_master && unicast && plain_flags, requested.as_ref()) {
+                        // "every object is answered with a non-success status"
+                        self.bump("probe.rejected_operate_echo_counted");
+                        if !req.is_empty() && st.len() != req.len() {
+                            violation = Some(Violation::new(
+                                "C04/rejected-operate-not-every-object-answered",
+                                "",
+                                format!("step {}: OPERATE of {} objects that must be rejected was answered with {} statuses ({:?})", step.op_index, req.len(), st.len(), st),
+                            ));
+                        }
                     }
+                } else if from_master && unicast && plain_flags && requested.as_ref().map(|r| !r.is_empty()).unwrap_or(false) && sent.bytes.len() <= self.rx_size {
+                    violation = Some(Violation::new(
+                        "C04/rejected-operate-not-every-object-answered",
+                        "no-response",
+                        format!("step {}: OPERATE seq {} that must be rejected got no response at all", step.op_index, seq),
+                    ));
                 }
             } else if must_succeed {
                 verdict_class = 21;
@@ -607,6 +716,8 @@ impl Oracle for SboOracle {
                             operate_callbacks.len()
                         ),
                     ));
+                } else if let Some(v) = self.operated_objects_differ(step, &operated, requested.as_ref(), sel.as_ref()) {
+                    violation = Some(v);
                 } else if let Some(resp) = sol_response {
                     let st = echoed_statuses(resp);
                     if st != operate_callbacks {
@@ -643,6 +754,8 @@ impl Oracle for SboOracle {
                             operate_callbacks.len()
                         ),
                     ));
+                } else if let Some(v) = if operated.is_empty() { None } else { self.operated_objects_differ(step, &operated, requested.as_ref(), sel.as_ref()) } {
+                    violation = Some(v);
                 } else if let (false, Some(resp)) = (operate_callbacks.is_empty(), sol_response) {
                     let st = echoed_statuses(resp);
                     if st != operate_callbacks {
